@@ -783,6 +783,10 @@ def classify(fn, F, cg=None, exceptions=None):
                                 d = fn.defn(M.strip(f[1]))
                                 if d is not None and not d.is_param and d.op == "load":
                                     a = M.strip(d.ops[0], ("bitcast",))
+                                    if a != ("v", p.id) and M.match(("gep", ANY, [("inst", p.id)]), d.ops[0], {}) is not None and (fn.mod.int_bits(p.ty) or 64) < 32:
+                                        # s[i] with an index narrower than any string can be long: i wraps to 0 before a terminator beyond 2^w is reached
+                                        li.narrow = (fn.mod.int_bits(p.ty), 64, "the position of the terminator")
+                                        continue
                                     if a == ("v", p.id) or M.match(("gep", ANY, [("inst", p.id)]), d.ops[0], {}) is not None:
                                         li.cls = "C"
                                         li.witness = ("advances one element per iteration; exit when the element at the cursor is %s" %
@@ -1182,6 +1186,10 @@ def _more_classes(fn, F, M, lp, li, phis, cg):
                         if d is not None and not d.is_param and d.op == "load":
                             a = M.strip(d.ops[0], ("bitcast",))
                             at_cursor = a == ("v", p.id) or M.match(("gep", ANY, [("inst", p.id)]), d.ops[0], {}) is not None
+                            if at_cursor and a != ("v", p.id) and not p.ty.endswith("*") and (fn.mod.int_bits(p.ty) or 64) < 32:
+                                # s[i] with an index of 8 or 16 bits: it wraps to 0 before it can reach a terminator further out
+                                li.narrow = (fn.mod.int_bits(p.ty), 64, "the position of the terminator")
+                                at_cursor = False
                             if at_cursor and ((f[0] == "eq" and is_const(f[2]) and const_val(f[2]) != 0) or (f[0] == "ne" and is_const(f[2]) and const_val(f[2]) == 0)):
                                 okc = True
                     if not okc:
